@@ -14,6 +14,9 @@ CHECKS = {
  "C04": dict(cat="exploration", tech="deterministic simulation with a Byzantine prover (faults injected at advice assignment with honest continuation, then bounded local repair of failing gate rows) over an operation registry with a configuration swarm; big-integer reference model", ref="DESIGN.md 3.2, 4/C04",
    text="Every native-field operation of the instruction traits reachable through the standard library (arithmetic, assertions, zero/equality tests, boolean logic, bitwise, bit/byte/chunk (de)composition, canonicity, sign, range checks, comparison, division, select/swap, conversions) runs on boundary-class inputs under a drawn pow2range configuration: the honest run must be satisfiable with the reference result iff the inputs are in the documented domain, and no Byzantine execution (1..3 faulted assignments, continuation from the faulty value, up to 3 re-solved hint cells) may be accepted with public inputs/outputs that contradict the definition.",
    note="MockProver is the constraint model (cross-checked by C02); sampling of fault sites in quick mode, every assignment ordinal of every 4th case in thorough mode; comparison instructions other than lower_than, vectors and maps are not reachable through ZkStdLib and are not yet covered."),
+ "C05": dict(cat="exploration", tech="deterministic simulation with a Byzantine prover (assignment faults with honest continuation, local repair) over the emulated-field and BigUint operation registry; modular big-integer reference with a harness-side limb decoder", ref="DESIGN.md 3.2, 4/C05",
+   text="Emulated-field operations over secp256k1 Fp/Fq and BLS12-381 Fp (incl. chains that leave elements un-normalised) and BigUint operations of widths 1..2048 bits run on boundary-class operands; the honest run must be satisfiable with the reference result iff the operands are admissible, and no Byzantine execution may be accepted unless the published values, decoded from marker-delimited limb groups, satisfy the operation modulo m with reduced, limb-bounded representations.",
+   note="One known finding (non-canonical public-input exposure of emulated elements, see known_findings.json); Curve25519 parameter sets are not reachable through ZkStdLib and are not covered; MockProver is the constraint model."),
  "C09": dict(cat="exploration", tech="deterministic simulation: invariant monitor on a structure-recording Assignment back end (unknown vs concrete vs Byzantine witnesses), sampled real keygen/prove/verify", ref="DESIGN.md 4/C09",
    text="Each operation circuit of the registry is synthesised with unknown witnesses, with the concrete boundary-class witness and under Byzantine value edits; fixed cells, selectors, the copy-constraint partition, table fills, advice positions and region count must coincide, and for a sample the verifying key made without a witness must verify a real proof made from the witness.",
    note="Covers the operation circuits present in the registry (native family at this commit, extended as the registry grows); the proof pipeline circuits of C01 have witness-independent structure by construction of the generator."),
